@@ -99,7 +99,7 @@ MASK_MODES_NOALL = st.sampled_from(["dense", "dense", "dense", "none", "one", "s
 @st.composite
 def dataset(draw, max_inputs=4, min_inputs=1, clim="maybe", flavor="det", core_max=3, extra_max=2,
             allow_drop=True, allow_obsless=True, boundary_heavy=True, ordered_dims=False, max_members=4,
-            var_x=False, allow_all_missing=True, half_hours=False, other_pool=("temp", "wind", "zscore"), per_input_layout=True, before_2037=False, own_obs=False):
+            var_x=False, allow_all_missing=True, half_hours=False, other_pool=("temp", "wind", "zscore"), per_input_layout=True, before_2037=False, own_obs=False, clim_other=False):
     """flavor: 'det' (obs, fcst) | 'prob' (+cdf, quantiles, pit) | 'ens' (+ensemble) | 'full' (all) | 'mix' """
     if flavor == "mix":
         flavor = draw(st.sampled_from(["det", "det", "prob", "ens", "full"]))
@@ -211,7 +211,7 @@ def dataset(draw, max_inputs=4, min_inputs=1, clim="maybe", flavor="det", core_m
             own_m = draw(st.integers(1, max_members)) if per_input_layout else members   # member counts may differ between files
             d["members"] = own_m
             d["ens"] = masked(draw, shape + (own_m,), val(), draw(modes))
-        if other_names and not is_clim:
+        if other_names and (clim_other or not is_clim):
             d["other"] = dict((nm, masked(draw, shape, val(), draw(modes))) for nm in other_names)
         return d
 
